@@ -88,7 +88,7 @@ impl Prop for C20 {
             let p = rel(FILES[i], FILES[j], &mut rng);
             let deco = match variant { "decorated" => match rng.below(4) { 0 => format!("  {{{}}}", p), 1 => format!("{{ {} }}", p), 2 => format!("{{{}}}   ", p), _ => format!("\t{{{}}}", p) }, _ => format!("{{{}}}", p) };
             lines.push(deco);
-            if variant == "repeat" && rng.chance(1, 2) { lines.push(format!("{{{}}}", p)); }
+            if (variant == "repeat" || variant == "fence-last") && rng.chance(1, 2) { lines.push(format!("{{{}}}", p)); }
             lines.push(format!("F{} after including F{}", i, j));
           }
         }
@@ -99,13 +99,24 @@ impl Prop for C20 {
           lines.push(format!("{}{}{}", ind, m, rng.pick(&["", "mech", "text info"])));
           lines.push(format!("{{{}}}", rel(FILES[i], FILES[(i + 1) % nfiles], &mut rng)));
           lines.push("{nested.mec}".into());
-          if rng.chance(1, 3) { lines.push(m[..3].to_string()); } // a closing fence that is too short when the opener is longer
+          // lines that look like a closing fence but are not one (too short, the other marker, text after the marker), each followed
+          // by more include-looking lines that are therefore still inside the fence
+          if rng.chance(2, 3) {
+            let other = if m.starts_with('`') { "~" } else { "`" };
+            let pseudo = match rng.below(5) { 0 => m[..3].to_string(), 1 => other.repeat(m.len()), 2 => other.repeat(m.len() + 2), 3 => format!("{} trailing", m), _ => format!("{}{}", m[..3].to_string(), other.repeat(3)) };
+            if pseudo != m { lines.push(pseudo); lines.push(format!("{{{}}}", rel(FILES[i], FILES[(i + 2) % nfiles], &mut rng))); lines.push("{absent.mec}".into()); lines.push(format!("{{{}}}", FILES[i])); }
+          }
           lines.push(format!("{}{}", ind, m));
           lines.push("{6 * 7}".into()); lines.push("{foo/bar}".into()); lines.push("x := {a: 1}".into());
           if variant == "fences" && rng.chance(1, 4) { lines.push("~~~".into()); lines.push(format!("{{{}}}", FILES[0])); } // unclosed fence swallows the rest
         }
         if variant == "missing" && i == nfiles - 1 { lines.push("{nothere.mec}".into()); }
+        // fence-last: the file ends inside / right after a fence, is a single fence, or is empty (no text after the last fence)
+        if variant == "fence-last" {
+          match rng.below(4) { 0 => { lines.clear(); } 1 => { lines = vec!["```".into(), "only a fence".into(), "```".into()]; } _ => { lines.push("~~~".into()); lines.push(format!("{{{}}}", FILES[0])); lines.push("~~~".into()); } }
+        } else {
         lines.push(format!("F{} last line", i));
+        }
         let mut txt = lines.join(nl);
         if !(variant == "no-trailing-newline") { txt.push_str(nl); }
         tree.insert(FILES[i].to_string(), txt);
@@ -115,9 +126,9 @@ impl Prop for C20 {
     };
     // all 512 graphs on 3 files, plain
     for mask in 0..512u32 { emit(&mut out, 3, mask, "plain", 0); }
-    let variants = ["decorated", "fences", "repeat", "no-trailing-newline", "crlf", "missing", "symlink"];
+    let variants = ["decorated", "fences", "repeat", "fence-last", "no-trailing-newline", "crlf", "missing", "symlink"];
     let per = if tier == Tier::Quick { 40 } else { 512 };
-    for v in variants.iter() { for k in 0..per { let mut rng = Rng::keyed(seed, &format!("c20v{}{}", v, k)); let mask = if tier == Tier::Quick { rng.below(512) as u32 } else { k as u32 }; emit(&mut out, 3, mask, v, k); } }
+    for v in variants.iter() { for k in 0..(if *v == "fences" { per * 3 } else { per }) { let mut rng = Rng::keyed(seed, &format!("c20v{}{}", v, k)); let mask = if tier == Tier::Quick { rng.below(512) as u32 } else { k as u32 }; emit(&mut out, 3, mask, v, k); } }
     // 4 files: seeded sample (quick) / all 65536 (thorough)
     let n4 = if tier == Tier::Quick { 300 } else { 65536 };
     for k in 0..n4 { let mut rng = Rng::keyed(seed, &format!("c20four{}", k)); let mask = if tier == Tier::Quick { rng.below(65536) as u32 } else { k as u32 }; let v = if k % 5 == 0 { "decorated" } else { "plain" }; emit(&mut out, 4, mask, v, k); }
